@@ -96,7 +96,8 @@ def extract(repo=None, verbose=False):
     marker = os.path.join(cdir, ".complete")
     if os.path.exists(marker):
         return cdir, key, False
-    lock = open(os.path.join(cache_root, ".lock"), "w")
+    slot = os.environ.get("KMT_TARGET_SLOT", "")          # battery workers: one cargo target directory (and lock) each
+    lock = open(os.path.join(cache_root, ".lock" + slot), "w")
     fcntl.flock(lock, fcntl.LOCK_EX)
     try:
         if os.path.exists(marker):
@@ -104,7 +105,7 @@ def extract(repo=None, verbose=False):
         if os.path.isdir(cdir):
             shutil.rmtree(cdir)
         os.makedirs(cdir)
-        target = os.path.join(OUT, "target")
+        target = os.path.join(OUT, "target" + slot)
         # cargo's freshness cache would skip the wrapper: forget the members' fingerprints
         fp = os.path.join(target, "debug", ".fingerprint")
         if os.path.isdir(fp):
